@@ -90,6 +90,9 @@ pub fn compare_fields(pid: &str, buf: &[u8], want: &dyn Fn(&str) -> bool) -> (Si
             };
             (diff_sigs(pid, &class, &e, &act, want), true)
         }
+        // a frame the statement says is accepted, but the library rejects it: the fields this
+        // property is about are not delivered at all
+        (Expect::Accept(_), Decoded::Err(e)) => (vec![(format!("{pid}/rejected/{class}"), format!("frame must be accepted but decode returned Err({e})"))], false),
         _ => (vec![], false),
     }
 }
